@@ -95,6 +95,15 @@ def explore(res, rng, n):
         x = np.array([rng.gauss(0, 1) + rng.choice([0.0, 3.0]) for _ in range(L)])
         fs2 = rng.choice([1.0, 10.0, 128.0])
         f1, p1 = lsm.periodogramSpectrum(x.tolist(), fs2)
+        if i % 5 == 2:
+            try:
+                f1n, p1n = lsm.periodogramSpectrum(x.tolist(), np.float32(fs2) if fs2 != 1.0 else np.int64(1))
+                fwn, pwn = lsm.welchSpectrum(x.tolist(), np.int64(int(fs2)), nperseg=min(8, L))
+                res.stat('numpy_scalar_sampling_rate')
+                if not np.allclose(p1n, p1, rtol=1e-6) or not np.allclose(f1n, f1, rtol=1e-6):
+                    fail(res, 'periodogram changes when fs is a numpy scalar', {'fs': fs2}, None)
+            except Exception as e:  # noqa
+                fail(res, 'valid sampling rate rejected when passed as a numpy scalar: ' + type(e).__name__ + ' ' + str(e)[:60], {'fs': fs2}, None)
         fr, pr = signal.periodogram(x, fs2, scaling='density')
         fw, pw = lsm.welchSpectrum(x.tolist(), fs2, nperseg=min(8, L))
         frw, prw = signal.welch(x, fs2, nperseg=min(8, L))
